@@ -226,7 +226,8 @@ func c10Body(r *Run) {
 	}
 	for i := 0; i < extraRunHandlers; i++ {
 		go func() {
-			if err := rig.Router.RunHandlers(rig.ctx); err != nil {
+			// (by then the router may have closed itself; what RunHandlers says on a closed router is not specified)
+			if err := rig.Router.RunHandlers(rig.ctx); err != nil && !rig.Router.IsClosed() {
 				r.Fail("C10.R2", "RunHandlers on a running router failed", "%v", err)
 			}
 		}()
@@ -240,7 +241,7 @@ func c10Body(r *Run) {
 		done := make(chan struct{}, n)
 		for i := 0; i < n; i++ {
 			go func() {
-				if err := rig.Router.RunHandlers(rig.ctx); err != nil {
+				if err := rig.Router.RunHandlers(rig.ctx); err != nil && !rig.Router.IsClosed() {
 					r.Fail("C10.R2", "RunHandlers on a running router failed", "%v", err)
 				}
 				done <- struct{}{}
@@ -249,8 +250,12 @@ func c10Body(r *Run) {
 		for i := 0; i < n; i++ {
 			<-done
 		}
+		// Another, still running RunHandlers call (a racer) may be the one that starts this handler: that the handler gets
+		// its subscription exactly once is judged at the end of the run; the delivery obligation below only arises when the
+		// subscription is already held at this instant.
 		if counting.Returned[h.topic] != 1 {
-			r.Fail("C10.R2", "RunHandlers returned but the new handler holds no subscription", "%s", h.name)
+			r.Probe("runhandlers-returned-before-subscription")
+			continue
 		}
 		if h.stopMode != 1 && !h.sharedOut {
 			u := "after-runhandlers-" + h.name
